@@ -59,6 +59,8 @@ type Case struct {
 	Spec *plyref.File `json:"spec,omitempty"`
 	Deco *plyref.Deco `json:"deco,omitempty"`
 	Fmts []string     `json:"fmts,omitempty"`
+	Plan string       `json:"plan,omitempty"` // series: plan of PlySeriesGen that produced the case
+	Ser  *Series      `json:"ser,omitempty"`  // series: parameters (see series.go / specs/PlySeries.tla)
 }
 
 func (c Case) Scale() plyref.Scale {
